@@ -190,9 +190,13 @@ def main(argv):
     vcmod.discharge(vcs)
     # second back end (thorough): cvc5 on the quantifier-free VCs
     backends = {'z3': len(vcs)}
-    if tier == 'thorough' and spec.get('cvc5', False):
+    if tier == 'thorough' and spec.get('cvc5', True):
         from pyvc import cvc5_backend
         backends['cvc5'] = cvc5_backend.recheck(vcs)
+        if backends['cvc5']['disagree']:
+            for n in backends['cvc5']['disagreements']: print('ERROR: cvc5 finds a counter-model for an obligation z3 discharged: ' + n)
+            write_evidence(prop, tier, seed, spec, vcs, infos, und, None, backends, time.time() - t0, 0, note='back ends disagree')
+            return 3
     proved = [v for v in vcs if vcmod.status(v) == 'proved']
     refuted = [v for v in vcs if vcmod.status(v) == 'refuted']
     undec = [v for v in vcs if vcmod.status(v) == 'undecided']
